@@ -11,6 +11,8 @@ import (
 	"strings"
 
 	"golang.org/x/tools/go/packages"
+	"golang.org/x/tools/go/ssa"
+	"golang.org/x/tools/go/types/typeutil"
 )
 
 // expectedDelta: the reviewed DELTA functions (section 4 of DESIGN.md). A function that is DELTA
@@ -141,6 +143,9 @@ func (s *e1State) deltaRule(r *Report, rule string, pair int, name string, pr *P
 		fail("locals", pr.DifPos, "matched statements use locals inconsistently: "+a)
 	}
 	a := &insAnalyzer{w: w, info: fp.TypesInfo, fo: s.fo, fkLocals: d.FkLocals, recvOnly: recvOnlyNames(w, pair, name, s.fo)}
+	if fd, _ := w.FuncDecl(forkPath(pair), name); fd != nil {
+		a.computeZeroLocals(fd)
+	}
 	// reference statements without a match: only reviewed replacements are admissible
 	usedIns := map[*Insertion]bool{}
 	for k, rs := range d.RefOnly {
@@ -158,12 +163,12 @@ func (s *e1State) deltaRule(r *Report, rule string, pair int, name string, pr *P
 		if usedIns[in] {
 			continue
 		}
-		v := a.classifyInsertion(in)
-		if !v.OK {
-			if cls, ok, why := s.specialInsertion(r, pair, name, a, in, d); cls != "" {
-				v.Class, v.OK, v.Why = cls, ok, why
-			}
+		if in.Case == nil && in.AbsorbRef < 0 && valTempDef[in.Stmt] {
+			ord["TEMP_DEF"]++
+			r.holds(rule, key+fmt.Sprintf("/ins:TEMP_DEF#%d", ord["TEMP_DEF"]), w.pos(in.Stmt.Pos()), "`"+stmtText(w, fp.TypesInfo, in.Stmt)+"`: names a sub-expression of a later statement; its effects are counted where the local is used")
+			continue
 		}
+		v := s.classifyWithNesting(r, pair, name, a, in, d, 0)
 		ord[v.Class]++
 		sub := fmt.Sprintf("ins:%s#%d", v.Class, ord[v.Class])
 		if v.OK {
@@ -319,6 +324,71 @@ func (s *e1State) replacementOK(pair int, name string, rinfo, finfo *types.Info,
 			return false, "field-wise replacement incomplete, missing: " + strings.Join(missing, "; ")
 		}
 	}
+	// (3) return E  ->  t := E; <stores to fork-only fields of t>; return t
+	if ret, ok := rs.(*ast.ReturnStmt); ok && len(ret.Results) == 1 {
+		refRun := ""
+		for k2, r2 := range d.RefOnly {
+			if r2 == rs && k2 < len(d.RefOnlyRun) {
+				refRun = d.RefOnlyRun[k2]
+			}
+		}
+		want := rc.expr(ret.Results[0])
+		for i, in := range d.Ins {
+			def, ok := in.Stmt.(*ast.AssignStmt)
+			if !ok || used[in] || in.Run != refRun || refRun == "" || def.Tok != token.DEFINE || len(def.Lhs) != 1 || len(def.Rhs) != 1 || in.Case != nil {
+				continue
+			}
+			tid, ok := def.Lhs[0].(*ast.Ident)
+			if !ok || finfo.Defs[tid] == nil || fc.expr(def.Rhs[0]) != want {
+				continue
+			}
+			t := finfo.Defs[tid]
+			// the following insertions of the same run up to `return t`
+			okSeq := false
+			var last *Insertion
+			for _, in2 := range d.Ins[i+1:] {
+				if in2.Run != refRun || in2.Stmt.Pos() < def.End() {
+					continue
+				}
+				if r2, ok := in2.Stmt.(*ast.ReturnStmt); ok {
+					if len(r2.Results) == 1 {
+						if id, ok := ast.Unparen(r2.Results[0]).(*ast.Ident); ok && finfo.Uses[id] == t {
+							okSeq, last = true, in2
+						}
+					}
+					break
+				}
+				// t itself must keep the value it was built with
+				spoiled := false
+				ast.Inspect(in2.Stmt, func(n ast.Node) bool {
+					switch x := n.(type) {
+					case *ast.AssignStmt:
+						for _, l := range x.Lhs {
+							if id, ok := ast.Unparen(l).(*ast.Ident); ok && finfo.Uses[id] == t {
+								spoiled = true
+							}
+						}
+					case *ast.IncDecStmt:
+						if id, ok := ast.Unparen(x.X).(*ast.Ident); ok && finfo.Uses[id] == t {
+							spoiled = true
+						}
+					case *ast.UnaryExpr:
+						if id, ok := ast.Unparen(x.X).(*ast.Ident); ok && x.Op == token.AND && finfo.Uses[id] == t {
+							spoiled = true
+						}
+					}
+					return true
+				})
+				if spoiled {
+					break
+				}
+			}
+			if okSeq {
+				used[in], used[last] = true, true
+				return true, "RETURN_VIA_LOCAL: the returned value is built by the reference's expression into a fork local that is returned unchanged; the statements in between are insertions judged on their own (stores to fork-only fields of the new value)"
+			}
+		}
+	}
 	return false, "no reviewed replacement applies"
 }
 
@@ -408,6 +478,52 @@ func enclosingFuncDecl(p *packages.Package, pos token.Pos) *ast.FuncDecl {
 	return nil
 }
 
+// classifyWithNesting: the generic classes, then the reviewed special constructs, then — for an inserted `if`
+// whose condition (and init) has no effect — each statement of its branches judged as an insertion of its own
+// (a reviewed construct under an additional harmless guard stays that construct).
+func (s *e1State) classifyWithNesting(r *Report, pair int, name string, a *insAnalyzer, in *Insertion, d *FuncDelta, depth int) *InsVerdict {
+	v := a.classifyInsertion(in)
+	if v.OK {
+		return v
+	}
+	if cls, ok, why := s.specialInsertion(r, pair, name, a, in, d); cls != "" {
+		v.Class, v.OK, v.Why = cls, ok, why
+		return v
+	}
+	ifs, isIf := in.Stmt.(*ast.IfStmt)
+	if !isIf || in.Case != nil || in.AbsorbRef >= 0 || depth > 2 {
+		return v
+	}
+	pure := func(n ast.Node) bool {
+		for _, e := range a.effects(n) {
+			if e.kind != "call-pure" && e.kind != "write-fork" {
+				return false
+			}
+		}
+		return true
+	}
+	if !pure(&ast.ExprStmt{X: ifs.Cond}) || (ifs.Init != nil && !pure(ifs.Init)) {
+		return v
+	}
+	var parts []ast.Stmt
+	parts = append(parts, ifs.Body.List...)
+	switch e := ifs.Else.(type) {
+	case *ast.BlockStmt:
+		parts = append(parts, e.List...)
+	case nil:
+	default:
+		parts = append(parts, e)
+	}
+	for _, st := range parts {
+		sub := s.classifyWithNesting(r, pair, name, a, &Insertion{Stmt: st, AbsorbRef: -1, Run: in.Run, Ctx: in.Ctx}, d, depth+1)
+		if !sub.OK {
+			return v
+		}
+	}
+	v.Class, v.OK, v.Why = "NESTED", true, "an effect-free condition around statements each of which is an admissible insertion on its own"
+	return v
+}
+
 // specialInsertion: the reviewed constructs that need their own rule.
 func (s *e1State) specialInsertion(r *Report, pair int, name string, a *insAnalyzer, in *Insertion, d *FuncDelta) (string, bool, string) {
 	info := a.info
@@ -423,6 +539,12 @@ func (s *e1State) specialInsertion(r *Report, pair int, name string, a *insAnaly
 			}
 		}
 		return "CASE_INSERT", false, "inserted switch case `" + c.exprs(in.Case.List) + "` is not guarded by a rule that is false for every fork up to Shanghai"
+	}
+	// context clone through a fork helper: `p = h(p, …)` where h hands p back unless p satisfies a fork-only interface
+	if as, ok := in.Stmt.(*ast.AssignStmt); ok && as.Tok == token.ASSIGN && len(as.Lhs) == 1 && len(as.Rhs) == 1 {
+		if cls, ok, why := s.ctxCloneHelper(pair, a, as); cls != "" {
+			return cls, ok, why
+		}
 	}
 	ifs, ok := in.Stmt.(*ast.IfStmt)
 	if !ok {
@@ -442,20 +564,7 @@ func (s *e1State) specialInsertion(r *Report, pair int, name string, a *insAnaly
 			if nt, ok := it.(*types.Named); ok && s.fo.Types[nt.Obj()] {
 				if iface, ok := nt.Underlying().(*types.Interface); ok {
 					// no type that also exists in the reference may satisfy the fork-only interface
-					fpk := s.w.Pkgs[forkPath(pair)]
-					rpk := s.w.Pkgs[refPath(pair)]
-					var offenders []string
-					n := 0
-					for _, tn := range fpk.Types.Scope().Names() {
-						o, ok := fpk.Types.Scope().Lookup(tn).(*types.TypeName)
-						if !ok || rpk.Types.Scope().Lookup(tn) == nil {
-							continue
-						}
-						n++
-						if types.Implements(o.Type(), iface) || types.Implements(types.NewPointer(o.Type()), iface) {
-							offenders = append(offenders, tn)
-						}
-					}
+					offenders, n := s.inheritedImplementers(pair, iface)
 					if len(offenders) > 0 {
 						return "CTX_CLONE", false, "inherited types satisfy the fork-only interface " + nt.Obj().Name() + ": " + strings.Join(offenders, ", ")
 					}
@@ -481,6 +590,143 @@ func (s *e1State) specialInsertion(r *Report, pair int, name string, a *insAnaly
 	return "", false, ""
 }
 
+// inheritedImplementers: the types that also exist in the reference and satisfy the (fork-only) interface.
+func (s *e1State) inheritedImplementers(pair int, iface *types.Interface) (offenders []string, n int) {
+	fpk := s.w.Pkgs[forkPath(pair)]
+	rpk := s.w.Pkgs[refPath(pair)]
+	for _, tn := range fpk.Types.Scope().Names() {
+		o, ok := fpk.Types.Scope().Lookup(tn).(*types.TypeName)
+		if !ok || rpk.Types.Scope().Lookup(tn) == nil {
+			continue
+		}
+		n++
+		if types.Implements(o.Type(), iface) || types.Implements(types.NewPointer(o.Type()), iface) {
+			offenders = append(offenders, tn)
+		}
+	}
+	return
+}
+
+// ctxCloneHelper: `X = h(…, X, …)` with h a fork-only function. Admissible when (SSA of h) every value h
+// returns is the parameter bound to X unless a comma-ok type test of that parameter against a fork-only
+// interface — which no inherited type satisfies — succeeded, and h does nothing but that test outside
+// the success side; on the success side the same effects are allowed as in the in-line form.
+func (s *e1State) ctxCloneHelper(pair int, a *insAnalyzer, as *ast.AssignStmt) (string, bool, string) {
+	info := a.info
+	lhs, ok := ast.Unparen(as.Lhs[0]).(*ast.Ident)
+	call, ok2 := ast.Unparen(as.Rhs[0]).(*ast.CallExpr)
+	if !ok || !ok2 {
+		return "", false, ""
+	}
+	f, ok := typeutil.Callee(info, call).(*types.Func)
+	if !ok || f.Pkg() == nil || f.Pkg().Path() != forkPath(pair) {
+		return "", false, ""
+	}
+	rel := relNameOfFunc(f)
+	if s.w.funcIdx[refPath(pair)][rel] != nil {
+		return "", false, ""
+	}
+	idx := -1
+	for i, arg := range call.Args {
+		if id, ok := ast.Unparen(arg).(*ast.Ident); ok && info.Uses[id] == info.Uses[lhs] {
+			idx = i
+		} else {
+			for _, e := range a.effects(&ast.ExprStmt{X: arg}) {
+				if e.kind != "call-pure" {
+					return "", false, ""
+				}
+			}
+		}
+	}
+	fn := s.w.Func(forkPath(pair), rel)
+	if idx < 0 || fn == nil || fn.Blocks == nil || fn.Signature.Recv() != nil || idx >= len(fn.Params) {
+		return "", false, ""
+	}
+	param := ssa.Value(fn.Params[idx])
+	// the success side of the type test
+	var succ *ssa.BasicBlock
+	var iname string
+	for _, b := range fn.Blocks {
+		iff, ok := b.Instrs[len(b.Instrs)-1].(*ssa.If)
+		if !ok {
+			continue
+		}
+		ex, ok := iff.Cond.(*ssa.Extract)
+		if !ok || ex.Index != 1 {
+			continue
+		}
+		ta, ok := ex.Tuple.(*ssa.TypeAssert)
+		if !ok || !ta.CommaOk || ta.X != param {
+			continue
+		}
+		nt, ok := ta.AssertedType.(*types.Named)
+		if !ok || !s.fo.Types[nt.Obj()] {
+			continue
+		}
+		iface, ok := nt.Underlying().(*types.Interface)
+		if !ok {
+			continue
+		}
+		if off, _ := s.inheritedImplementers(pair, iface); len(off) > 0 {
+			return "CTX_CLONE", false, "inherited types satisfy the fork-only interface " + nt.Obj().Name() + ": " + strings.Join(off, ", ")
+		}
+		if b.Succs[0] != b.Succs[1] && len(b.Succs[0].Preds) == 1 {
+			succ, iname = b.Succs[0], nt.Obj().Name()
+		}
+	}
+	if succ == nil {
+		return "", false, ""
+	}
+	var okVal func(v ssa.Value, from *ssa.BasicBlock, seen map[ssa.Value]bool) bool
+	okVal = func(v ssa.Value, from *ssa.BasicBlock, seen map[ssa.Value]bool) bool {
+		if v == param || succ.Dominates(from) {
+			return true
+		}
+		if phi, ok := v.(*ssa.Phi); ok && !seen[v] {
+			seen[v] = true
+			for i, e := range phi.Edges {
+				if !okVal(e, phi.Block().Preds[i], seen) {
+					return false
+				}
+			}
+			return true
+		}
+		return false
+	}
+	for _, b := range fn.Blocks {
+		for _, ins := range b.Instrs {
+			if ret, ok := ins.(*ssa.Return); ok {
+				if len(ret.Results) != 1 || !okVal(ret.Results[0], b, map[ssa.Value]bool{}) {
+					return "CTX_CLONE", false, "helper " + rel + " can return something else than its argument although the type test against " + iname + " failed"
+				}
+				continue
+			}
+			if succ.Dominates(b) {
+				continue
+			}
+			switch ins.(type) {
+			case *ssa.TypeAssert, *ssa.Extract, *ssa.If, *ssa.Jump, *ssa.Phi, *ssa.DebugRef, *ssa.ChangeInterface, *ssa.MakeInterface:
+			default:
+				return "CTX_CLONE", false, "helper " + rel + " does more than the type test outside its success side (" + ins.String() + ")"
+			}
+		}
+	}
+	hes, ok := a.helperEffects(f, call.Pos())
+	if !ok {
+		return "", false, ""
+	}
+	for _, e := range hes {
+		if e.kind == "call-pure" || e.kind == "write-fork" {
+			continue
+		}
+		if e.kind == "call-other" && strings.HasSuffix(e.what, ".CloneWithCtx") {
+			continue
+		}
+		return "CTX_CLONE", false, "helper " + rel + " has effect " + e.kind + " " + e.what
+	}
+	return "CTX_CLONE", true, "the helper " + rel + " returns its argument unless a type test against fork-only interface " + iname + " succeeds, which no inherited type satisfies (method-set query)"
+}
+
 // jpRegionOK (R1.4b): inside `if evm.IsExecuteJP { … }`, under S-noaspect (result.Err == nil and
 // result.Gas == the gas argument) every write to reference state and every return is
 // control-dependent on `<result>.Err != nil`, or is `gas = <result>.Gas` where the gas argument of
@@ -491,93 +737,212 @@ func jpRegionOK(a *insAnalyzer, ifs *ast.IfStmt) (bool, string) {
 	var resVar types.Object
 	gasArgIsGas := false
 	var gasObj types.Object
-	for _, st := range ifs.Body.List {
-		switch x := st.(type) {
-		case *ast.AssignStmt:
-			// result := djpm.AspectInstance().PreContractCall(...)
-			if x.Tok == token.DEFINE && len(x.Lhs) == 1 && len(x.Rhs) == 1 {
-				if call, ok := x.Rhs[0].(*ast.CallExpr); ok {
-					name, _ := a.calleeName(call)
-					if strings.HasSuffix(name, ".PreContractCall") || strings.HasSuffix(name, ".PostContractCall") {
-						if resVar != nil {
-							return false, "two join-point calls in one region"
-						}
-						resVar = info.Defs[x.Lhs[0].(*ast.Ident)]
-						// the uint64 positional argument is the gas
-						for _, arg := range call.Args {
-							if t := info.TypeOf(arg); t != nil && t.String() == "uint64" {
-								if id, ok := ast.Unparen(arg).(*ast.Ident); ok {
-									gasObj = info.Uses[id]
-									gasArgIsGas = gasObj != nil && gasObj.Name() == "gas"
-								}
-							}
-						}
-						// arguments must be effect-free
-						for _, arg := range call.Args {
-							for _, e := range a.effects(&ast.ExprStmt{X: arg}) {
-								if e.kind != "call-pure" {
-									return false, "join-point argument has effect " + e.kind + " " + e.what
-								}
-							}
-						}
-						continue
-					}
-				}
+	errAlias := map[types.Object]bool{} // locals defined as <result>.Err
+	// isErr: e reads <result>.Err (directly or through a local defined from it)
+	isErr := func(e ast.Expr) bool {
+		switch x := ast.Unparen(e).(type) {
+		case *ast.Ident:
+			return errAlias[info.Uses[x]]
+		case *ast.SelectorExpr:
+			if x.Sel.Name != "Err" || resVar == nil {
+				return false
 			}
-			// gas = result.Gas
-			if x.Tok == token.ASSIGN && len(x.Lhs) == 1 && len(x.Rhs) == 1 {
-				if id, ok := x.Lhs[0].(*ast.Ident); ok && gasObj != nil && info.Uses[id] == gasObj {
-					if sel, ok := x.Rhs[0].(*ast.SelectorExpr); ok && sel.Sel.Name == "Gas" {
-						if rid, ok := sel.X.(*ast.Ident); ok && info.Uses[rid] == resVar && resVar != nil {
-							if !gasArgIsGas {
-								return false, "gas re-assigned from the join-point result but the call's gas argument is not the variable gas"
+			id, ok := ast.Unparen(x.X).(*ast.Ident)
+			return ok && info.Uses[id] == resVar
+		}
+		return false
+	}
+	// errTest: +1 when cond is `<err> != nil`, -1 when it is `<err> == nil`, 0 otherwise
+	errTest := func(cond ast.Expr) int {
+		b, ok := ast.Unparen(cond).(*ast.BinaryExpr)
+		if !ok || (b.Op != token.NEQ && b.Op != token.EQL) {
+			return 0
+		}
+		x, y := b.X, b.Y
+		if info.Types[x].IsNil() {
+			x, y = y, x
+		}
+		if !isErr(x) || !info.Types[y].IsNil() {
+			return 0
+		}
+		if b.Op == token.NEQ {
+			return 1
+		}
+		return -1
+	}
+	pureOnly := func(n ast.Node, what string) (bool, string) {
+		for _, e := range a.effects(n) {
+			if e.kind != "write-fork" && e.kind != "call-pure" {
+				return false, what + " in a join-point region affects reference state without depending on the join-point error (" + e.kind + " " + e.what + ")"
+			}
+		}
+		return true, ""
+	}
+	var admissible func(list []ast.Stmt) (bool, string)
+	one := func(st ast.Stmt) (bool, string) {
+		if st == nil {
+			return true, ""
+		}
+		return admissible([]ast.Stmt{st})
+	}
+	admissible = func(list []ast.Stmt) (bool, string) {
+		for _, st := range list {
+			switch x := st.(type) {
+			case *ast.AssignStmt:
+				// result := djpm.AspectInstance().PreContractCall(...)
+				if x.Tok == token.DEFINE && len(x.Lhs) == 1 && len(x.Rhs) == 1 {
+					if call, ok := x.Rhs[0].(*ast.CallExpr); ok {
+						name, _ := a.calleeName(call)
+						if strings.HasSuffix(name, ".PreContractCall") || strings.HasSuffix(name, ".PostContractCall") {
+							if resVar != nil {
+								return false, "two join-point calls in one region"
+							}
+							resVar = info.Defs[x.Lhs[0].(*ast.Ident)]
+							// the uint64 positional argument is the gas
+							for _, arg := range call.Args {
+								if t := info.TypeOf(arg); t != nil && t.String() == "uint64" {
+									if id, ok := ast.Unparen(arg).(*ast.Ident); ok {
+										gasObj = info.Uses[id]
+										gasArgIsGas = gasObj != nil && gasObj.Name() == "gas"
+									}
+								}
+							}
+							// arguments must be effect-free
+							for _, arg := range call.Args {
+								for _, e := range a.effects(&ast.ExprStmt{X: arg}) {
+									if e.kind != "call-pure" {
+										return false, "join-point argument has effect " + e.kind + " " + e.what
+									}
+								}
 							}
 							continue
 						}
 					}
+					// v := <result>.Err
+					if id, ok := x.Lhs[0].(*ast.Ident); ok && isErr(x.Rhs[0]) && info.Defs[id] != nil {
+						errAlias[info.Defs[id]] = true
+						continue
+					}
 				}
-			}
-			for _, e := range a.effects(x) {
-				if e.kind == "write-ref" || e.kind == "call-other" || e.kind == "call-jp" {
-					return false, "statement `" + c.stmt(x) + "` in a join-point region affects reference state unconditionally (" + e.kind + " " + e.what + ")"
+				// gas = result.Gas
+				if x.Tok == token.ASSIGN && len(x.Lhs) == 1 && len(x.Rhs) == 1 {
+					if id, ok := x.Lhs[0].(*ast.Ident); ok && gasObj != nil && info.Uses[id] == gasObj {
+						if sel, ok := x.Rhs[0].(*ast.SelectorExpr); ok && sel.Sel.Name == "Gas" {
+							if rid, ok := sel.X.(*ast.Ident); ok && info.Uses[rid] == resVar && resVar != nil {
+								if !gasArgIsGas {
+									return false, "gas re-assigned from the join-point result but the call's gas argument is not the variable gas"
+								}
+								continue
+							}
+						}
+					}
 				}
-			}
-		case *ast.IfStmt:
-			// if result.Err != nil { anything }
-			if isErrNotNil(info, x.Cond, resVar) && x.Else == nil {
-				continue
-			}
-			for _, e := range a.effects(x) {
-				if e.kind != "write-fork" && e.kind != "call-pure" {
-					return false, "statement `if " + c.expr(x.Cond) + "` in a join-point region affects reference state without depending on the join-point error (" + e.kind + " " + e.what + ")"
+				// a local defined from <result>.Err must not be re-assigned
+				for _, l := range x.Lhs {
+					if id, ok := l.(*ast.Ident); ok && errAlias[info.Uses[id]] {
+						return false, "the local holding the join-point error is re-assigned"
+					}
 				}
-			}
-		default:
-			for _, e := range a.effects(st) {
-				if e.kind != "write-fork" && e.kind != "call-pure" {
-					return false, "statement in a join-point region affects reference state (" + e.kind + " " + e.what + ")"
+				for _, e := range a.effects(x) {
+					if e.kind == "write-ref" || e.kind == "call-other" || e.kind == "call-jp" {
+						return false, "statement `" + c.stmt(x) + "` in a join-point region affects reference state unconditionally (" + e.kind + " " + e.what + ")"
+					}
+				}
+			case *ast.BlockStmt:
+				if ok, why := admissible(x.List); !ok {
+					return false, why
+				}
+			case *ast.IfStmt:
+				if ok, why := one(x.Init); !ok {
+					return false, why
+				}
+				switch errTest(x.Cond) {
+				case 1: // if <err> != nil { anything } else { admissible }
+					if ok, why := one(x.Else); !ok {
+						return false, why
+					}
+				case -1: // if <err> == nil { admissible } else { anything }
+					if ok, why := admissible(x.Body.List); !ok {
+						return false, why
+					}
+				default:
+					if ok, why := pureOnly(&ast.ExprStmt{X: x.Cond}, "condition `"+c.expr(x.Cond)+"`"); !ok {
+						return false, why
+					}
+					if ok, why := admissible(x.Body.List); !ok {
+						return false, "under `if " + c.expr(x.Cond) + "`: " + why
+					}
+					if ok, why := one(x.Else); !ok {
+						return false, "under `if " + c.expr(x.Cond) + "` (else): " + why
+					}
+				}
+			case *ast.SwitchStmt:
+				if x.Tag != nil {
+					if ok, why := pureOnly(x, "statement `switch "+c.expr(x.Tag)+"`"); !ok {
+						return false, why
+					}
+					continue
+				}
+				if ok, why := one(x.Init); !ok {
+					return false, why
+				}
+				// clauses are tested in source order; once `<err> == nil` was tested and not taken, the error is set
+				errSet := false
+				var def *ast.CaseClause
+				for _, cl := range x.Body.List {
+					cc := cl.(*ast.CaseClause)
+					if cc.List == nil {
+						def = cc
+						continue
+					}
+					if errSet {
+						continue
+					}
+					t := 0
+					if len(cc.List) == 1 {
+						t = errTest(cc.List[0])
+					}
+					for _, e := range cc.List {
+						if ok, why := pureOnly(&ast.ExprStmt{X: e}, "case condition `"+c.expr(e)+"`"); !ok {
+							return false, why
+						}
+					}
+					for _, b := range cc.Body {
+						if br, ok := b.(*ast.BranchStmt); ok && br.Tok == token.FALLTHROUGH {
+							return false, "fallthrough in a join-point region"
+						}
+					}
+					switch t {
+					case 1:
+					case -1:
+						if ok, why := admissible(cc.Body); !ok {
+							return false, why
+						}
+						errSet = true
+					default:
+						if ok, why := admissible(cc.Body); !ok {
+							return false, why
+						}
+					}
+				}
+				if def != nil && !errSet {
+					if ok, why := admissible(def.Body); !ok {
+						return false, why
+					}
+				}
+			default:
+				if ok, why := pureOnly(st, "statement"); !ok {
+					return false, why
 				}
 			}
 		}
+		return true, ""
+	}
+	if ok, why := admissible(ifs.Body.List); !ok {
+		return false, why
 	}
 	if resVar == nil {
 		return false, "no join-point call found in the region"
 	}
 	return true, "under S-noaspect (Err == nil, Gas == gas argument) the region only re-assigns gas to itself; all other writes/returns depend on <result>.Err != nil"
-}
-
-func isErrNotNil(info *types.Info, cond ast.Expr, res types.Object) bool {
-	b, ok := ast.Unparen(cond).(*ast.BinaryExpr)
-	if !ok || b.Op != token.NEQ || res == nil {
-		return false
-	}
-	sel, ok := ast.Unparen(b.X).(*ast.SelectorExpr)
-	if !ok || sel.Sel.Name != "Err" {
-		return false
-	}
-	id, ok := sel.X.(*ast.Ident)
-	if !ok || info.Uses[id] != res {
-		return false
-	}
-	return info.Types[b.Y].IsNil()
 }
